@@ -22,6 +22,12 @@ func (s StringSubscript) StartIndex() Expression {
 	return s.startIndex
 }
 
+// HasEndIndex reports whether an end-index has been stated explicitly (s[a:b], s[a:], s[:b]).
+// If not (s[i]), the end-index is the start-index and must not be evaluated a second time.
+func (s StringSubscript) HasEndIndex() bool {
+	return s.endIndex != nil
+}
+
 func (s StringSubscript) EndIndex() Expression {
 	endIndex := s.endIndex
 
